@@ -39,13 +39,14 @@ type tagSpec struct {
 }
 
 type caseT struct {
-	Family   string    `json:"family"`
-	Video    bool      `json:"has_video"`
-	Audio    bool      `json:"has_audio"`
-	Tags     []tagSpec `json:"tags"`
-	Window   int       `json:"split_window"`     // files longer than AllBelow are split only within Window bytes of a field boundary
-	AllBelow int       `json:"all_splits_up_to"` // files up to this length are split at every offset
-	Split    int       `json:"failing_split,omitempty"`
+	Family   string      `json:"family"`
+	Video    bool        `json:"has_video"`
+	Audio    bool        `json:"has_audio"`
+	Tags     []tagSpec   `json:"tags"`
+	Window   int         `json:"split_window"`     // files longer than AllBelow are split only within Window bytes of a field boundary
+	AllBelow int         `json:"all_splits_up_to"` // files up to this length are split at every offset
+	Split    int         `json:"failing_split,omitempty"`
+	Reader   *readerSpec `json:"reader,omitempty"` // family readers only (readers.go)
 }
 
 func (cs *caseT) id() string {
@@ -558,7 +559,9 @@ func run(c *hl.Ctx) {
 	c.Info("demuxer_fields_besides_transport", df)
 	c.Assume("reference FLV v1 writer/parser written from the Adobe Video File Format Specification v10 Annex E is correct (cross-checked against each other on every case)",
 		"bodies are a fixed position-dependent byte pattern with an embedded 'FLV'/tag-header lookalike; body content does not influence the muxer or demuxer beyond its length",
-		"a reader may legally return fewer bytes than asked, and may return the final bytes together with io.EOF")
+		"a reader may legally return fewer bytes than asked, and may return the final bytes together with io.EOF",
+		"a reader may legally return (0, nil) (package io: callers should treat a return of 0 and nil as indicating that nothing happened; in particular it does not indicate EOF); only isolated empty results are modelled, never two in a row",
+		"in family readers the tag type and timestamp do not take every combination per position (they rotate through the alphabets): what the demuxer asks of the reader depends on the body sizes only; type x timestamp x size products are family full's")
 
 	e := &enum{c: c}
 	w := 40
@@ -575,9 +578,15 @@ func run(c *hl.Ctx) {
 		depth = 3
 		rule += "Family d3-small: every sequence of 3 tags over type x timestamp x size {0,1,255,256} (140^3), flags rotating, split window 16 above 160 bytes. Family d3-big: every sequence of 3 tags over type {8,9,255} x timestamp {1,0x1000000,0xFFFFFFFF} x all six sizes with at least one body >= 65535, flags rotating, split window 16. Family max-body: body of 2^24-1 bytes alone and next to a second tag. "
 	}
-	rule += "Each case: library muxer output compared byte for byte with the independent writer and parsed by the independent parser; library demuxer run on the library-written and on the reference-written bytes under whole / EOF-with-data / one-byte / every two-piece segmentation, every returned value compared. Non-trivial = distinct case with >= 1 tag whose file was written without error and read back identically under every segmentation."
+	rule += readersRule(c)
+	rule += "Each case of the other families: library muxer output compared byte for byte with the independent writer and parsed by the independent parser; library demuxer run on the library-written and on the reference-written bytes under whole / EOF-with-data / one-byte / every two-piece segmentation, every returned value compared. Non-trivial = distinct case with >= 1 tag whose file was written without error and read back identically under every segmentation."
 	c.Rule(rule)
 	c.Info("max_sequence_length", depth)
+
+	// family readers (readers.go): product of reader behaviours over size-driven sequences
+	if !runReaders(c, e, w) {
+		return
+	}
 
 	// family full: depth 0..2, flags innermost
 	rotFull := 0
@@ -677,6 +686,10 @@ func replay(c *hl.Ctx, raw json.RawMessage) {
 	cs.Split = 0
 	if cs.AllBelow == 0 {
 		cs.AllBelow = 2048
+	}
+	if cs.Family == "readers" && cs.Reader != nil {
+		checkReaders(c, &cs, []variant{{cs.Reader.EOFWithData, cs.Reader.Empty}})
+		return
 	}
 	checkCase(c, &cs)
 }
